@@ -1,6 +1,7 @@
 import O2P.Model.Gate
 import O2P.Lemmas.Cover
 import O2P.Lemmas.InferOr
+import O2P.Lemmas.InferOrTree
 import O2P.Lemmas.PostFlat
 /-!
 # C06 — gate inference explains all observed successor sets; exact without mixed OR
@@ -67,6 +68,50 @@ theorem or_inference_leaves_sound (F : List (List String)) (N R : List String) (
     (hsame : SameSet s (N ++ T)) (hne : s ≠ []) :
     ∃ g, (inferOrNode F (rawLeaves N R)).toGate = some g ∧ admits g s = true :=
   infer_or_leaves_sound F N R hR hdis s hs T hT hsame hne
+
+/-- **C06, the OR inference on arbitrary subtrees**: the children of the parallel node are process trees themselves
+(plain events, tau, choices — what `classify` places), the sets they produce given by the semantics `PTree.sem` of the
+miner's trees (tau: the empty set; X: one child; +: all children; O: a non-empty selection).  If the mandatory children
+produce only non-empty sets and share no event name with the optional branches, then for every observed family `F` the
+node `inferOrNode F` puts in the place of `+(cs…)` — the executable model that the check runs against the real
+`infer_or_gate_from_node` — produces every non-empty set of `F` that the raw node produces, whichever of the three
+shapes the test on `F` selects. -/
+theorem or_inference_tree_sound (F : List (List String)) (cs : List PTree) (hcls : ∀ c ∈ cs, Classified c)
+    (hne : ∀ c ∈ (classify cs).2, ∀ s, c.sem s → s ≠ [])
+    (hdisj : ∀ x, x ∈ PTree.labelsL (classify cs).2 →
+      x ∉ PTree.labelsL ((classify cs).1.flatMap grandchildrenOf))
+    (s : List String) (hs : s ∈ F) (hsne : s ≠ []) (hraw : (PTree.node .and cs).sem s) :
+    (inferOrNode F (.node .and cs)).sem s :=
+  infer_or_tree_sound F cs hcls hne hdisj s hs hsne hraw
+
+/-- non-vacuity: `+(c, X(tau, X(a, b)))` — an optional branch that is itself a choice — with the observations `{c}`,
+`{c, a}` meets every hypothesis, and the rewritten node produces `{c, a}` -/
+example : (inferOrNode [["c"], ["c", "a"]]
+    (.node .and [.leaf "c", .node .xor [.tau, .node .xor [.leaf "a", .leaf "b"]]])).sem ["c", "a"] := by
+  have hcl : classify [PTree.leaf "c", .node .xor [.tau, .node .xor [.leaf "a", .leaf "b"]]] =
+      ([.node .xor [.tau, .node .xor [.leaf "a", .leaf "b"]]], [.leaf "c"]) := by
+    simp [classify, PTree.isTau]
+  apply or_inference_tree_sound
+  · intro c hc
+    simp only [List.mem_cons, List.mem_nil_iff, or_false] at hc
+    rcases hc with rfl | rfl <;> simp [Classified]
+  · rw [hcl]
+    intro c hc s hs
+    simp only [List.mem_singleton] at hc
+    subst hc
+    simp only [PTree.sem] at hs
+    intro e
+    subst e
+    have := (hs "c").mpr (by simp)
+    simp at this
+  · rw [hcl]
+    simp [PTree.labelsL, PTree.labels, grandchildrenOf, PTree.isTau]
+  · simp
+  · simp
+  · simp only [PTree.sem]
+    refine ⟨[["c"], ["a"]], ?_, by intro x; simp⟩
+    simp only [PTree.semAll, PTree.sem, PTree.semAny]
+    exact ⟨["c"], [["a"]], rfl, fun _ => Iff.rfl, ["a"], [], rfl, Or.inr (Or.inl (Or.inl (fun _ => Iff.rfl))), rfl⟩
 
 /-- the executable test of the model (`checkIsOr`, compared with the real function on generated trees) is that
 decision on the labels of the subtrees -/
